@@ -6,7 +6,7 @@ from suites.common import reflect, exc_result, rstr, LOWER, DIGITS
 SHORTS = ["f", "rhel", "fedora", "my-product", "a-b-c", "a1-2b", "x-updates", "rhel-ha", "a-b", "z9", "spacewalk-x", "sles-sp", "rhel-beta"]
 VERSIONS_NUM = ["1", "23", "1.0", "7.9", "10.2.3", "0", "20240101", "2"]
 VERSIONS_FREE = ["rawhide", "Rawhide", "xga", "eus", "beta", "X1", "testing", "v.1", "Xga", "updates", "b", "ga", "EUS", "GA", "Fast", "Updates", "E4S",
-                 "fast", "Beta_2", "r.a.w", "x1y", "Aeus"]
+                 "fast", "Beta_2", "r.a.w", "x1y", "Aeus", "rc ", "rc\t", " beta", "b 2", "x\u00a0"]
 BAD_SHORTS = ["", "F", "1a", "a--b", "-a", "a-", "a_b", "a@b", "a.b"]
 BAD_VERSIONS = ["", "1.", "1..2", ".1", "1a", "1-2", "01x"]
 BAD_TYPES = ["", "GA", "1ga", "u--t", "-ga", "ga-", "g_a"]
